@@ -136,12 +136,12 @@ def observe(cmd, args):
         for k, v in raw.items(): toks += encode_value(k, v)
         toks += ["U" + k for k in unparsed]
         return json.dumps(toks)
-    if cmd in ("m.from_raw", "m.from_email", "m.from_email_doc"):
+    if cmd in ("m.from_raw", "m.from_email", "m.from_email_doc", "m.from_raw_models"):
         validate = args[0] == "T"
         data, unparsed, reads, doc = decode_tokens(args[1:])
         before = copy.deepcopy(data)
         try:
-            m = Metadata.from_raw(data, validate=validate) if cmd == "m.from_raw" else Metadata.from_email(doc, validate=validate)
+            m = Metadata.from_raw(data, validate=validate) if cmd in ("m.from_raw", "m.from_raw_models") else Metadata.from_email(doc, validate=validate)
         except ExceptionGroup as g:
             obs = group_obs(g)
         else:
@@ -152,11 +152,14 @@ def observe(cmd, args):
         # from_raw(validate=False) on the caller's dict, then attribute reads interleaved with in-place changes made by the caller (to
         # its dict and to the list objects in it) and by the holder of returned lists; finally the caller's dict as it is then
         data, _, _, _ = decode_tokens([t for t in args[1:] if t[:1] in "KSLIDPQ"])
-        m = Metadata.from_raw(data, validate=False)
+        try:
+            m = Metadata.from_raw(data, validate=args[0] == "T")
+        except ExceptionGroup as g:
+            return group_obs(g)
         out, last = ["OK"], {}
         for t in args[1:]:
             tag, body = t[:1], t[1:]
-            if tag not in "Radmh": continue
+            if tag not in "Radmhug": continue
             key, *items = body.split("\x1f")
             if tag == "R":
                 try:
@@ -171,6 +174,10 @@ def observe(cmd, args):
                 if isinstance(data.get(key), list): data[key][:] = items
             elif tag == "h":
                 if isinstance(last.get(key), list): last[key][:] = items
+            elif tag in "ug":
+                obj = data.get(key) if tag == "u" else last.get(key)
+                if isinstance(obj, dict):
+                    obj.clear(); obj.update(zip(items[0::2], items[1::2]))
         return "|".join(out) + "#" + ";".join(show_s(k) + "=" + render(v) for k, v in data.items())
     # ------------------------------------------------------------------ direct laws on the implementation
     if cmd == "law.m.gating":
